@@ -627,3 +627,14 @@ pub fn near_miss(v: &DV, rng: &mut Rng, json: bool) -> DV {
   }
   c
 }
+
+/// every integer of the value fits a CBOR head (-2^64 ..= 2^64-1)
+pub fn cbor_encodable(v: &DV) -> bool {
+  match v {
+    DV::Int(i) => *i >= -(1i128 << 64) && *i < (1i128 << 64),
+    DV::Array(a) => a.iter().all(cbor_encodable),
+    DV::Map(m) => m.iter().all(|(k, x)| cbor_encodable(k) && cbor_encodable(x)),
+    DV::Tag(_, x) => cbor_encodable(x),
+    _ => true,
+  }
+}
